@@ -13,9 +13,12 @@ mod c06;
 mod sm2api;
 mod c07;
 mod c08;
+mod c09;
+mod c10;
 mod c11;
 mod c12;
 mod c16;
+mod c17;
 mod c13;
 mod c14;
 mod c15;
@@ -38,12 +41,15 @@ fn registry(id: &str) -> Option<(&'static str, RunFn, ReplayFn)> {
         "C06" => ("C06", c06::run as RunFn, c06::replay as ReplayFn),
         "C07" => ("C07", c07::run as RunFn, c07::replay as ReplayFn),
         "C08" => ("C08", c08::run as RunFn, c08::replay as ReplayFn),
+        "C09" => ("C09", c09::run as RunFn, c09::replay as ReplayFn),
+        "C10" => ("C10", c10::run as RunFn, c10::replay as ReplayFn),
         "C11" => ("C11", c11::run as RunFn, c11::replay as ReplayFn),
         "C12" => ("C12", c12::run as RunFn, c12::replay as ReplayFn),
         "C16" => ("C16", c16::run as RunFn, c16::replay as ReplayFn),
         "C13" => ("C13", c13::run as RunFn, c13::replay as ReplayFn),
         "C14" => ("C14", c14::run as RunFn, c14::replay as ReplayFn),
         "C15" => ("C15", c15::run as RunFn, c15::replay as ReplayFn),
+        "C17" => ("C17", c17::run as RunFn, c17::replay as ReplayFn),
         "C18" => ("C18", c18::run as RunFn, c18::replay as ReplayFn),
         "C19" => ("C19", c19::run as RunFn, c19::replay as ReplayFn),
         _ => return None,
